@@ -68,7 +68,6 @@ func genSessionFields(r *Rng, kind string) tls.VerifSessionFields {
 	for i, n := 0, r.Intn(3); i < n; i++ {
 		f.Extra = append(f.Extra, r.Bytes(Pick(r, []int{0, 1, 17, 300})))
 	}
-	leaf, ca := kitCerts()
 	switch kind {
 	case "client12":
 		f.IsClient = true
@@ -80,13 +79,9 @@ func genSessionFields(r *Rng, kind string) tls.VerifSessionFields {
 		f.AgeAdd = uint32(r.U64())
 	}
 	if f.IsClient || r.Bool() {
-		f.PeerCertificates = []*x509.Certificate{leaf}
-		if r.Bool() {
-			f.PeerCertificates = append(f.PeerCertificates, ca)
-		}
-		for i, n := 0, r.Intn(3); i < n; i++ {
-			f.VerifiedChains = append(f.VerifiedChains, []*x509.Certificate{leaf, ca}[:1+r.Intn(2)])
-		}
+		// a small PKI (leaf, two intermediates, two roots, the kit CA): peer certificates and verified
+		// chains of different shapes, so that chains differ after the leaf
+		c35GenCerts(r, &f)
 		if r.Bool() {
 			f.OCSPResponse = r.Bytes(1 + r.Intn(40))
 		}
@@ -301,9 +296,9 @@ func execTicket(in KV) string {
 		h := sha512.Sum512(legacy[:])
 		lh = hx(legacy[:]) + ":" + hx(h[:])
 	}
-	return fmt.Sprintf("out=ok ldec=%s lk=%s lh=%s sb=%s iv=%s t=%s dec=%s feq=%s ks=%s kd=%s h=%s hd=%s ik=%s pk=%s ct=%s tag=%s dm=%s dp=%s",
+	return fmt.Sprintf("out=ok ldec=%s lk=%s lh=%s sb=%s iv=%s t=%s dec=%s feq=%s ks=%s kd=%s h=%s hd=%s ik=%s pk=%s ct=%s tag=%s dm=%s dp=%s %s ctab=%s",
 		ldec, lk, lh, hx(sb), hx(iv), hx(ticket), dec, feq, joinList(ks), joinList(kd), joinList(hs), joinList(hd), joinList(ik), joinList(pk),
-		hx(ct), hx(tag), hexJoin(dm), hexJoin(dp))
+		hx(ct), hx(tag), hexJoin(dm), hexJoin(dp), c35FieldTokens(fields), c35Ctab())
 }
 
 // ---- forged client sessions ----
